@@ -23,7 +23,15 @@ def run_one(m, keep=False):
     evd = os.path.join(base, "evidence")
     os.makedirs(evd)
     try:
-        subprocess.run(["git", "-C", REPO, "worktree", "add", "--detach", "-q", wt, "HEAD"], check=True, capture_output=True)
+        for attempt in range(6):
+            # concurrent `git worktree add` calls contend for a lock in /repo/.git: retry
+            r0 = subprocess.run(["git", "-C", REPO, "worktree", "add", "--detach", "-q", wt, "HEAD"], capture_output=True, text=True)
+            if r0.returncode == 0:
+                break
+            import time as _t
+            _t.sleep(1.5 * (attempt + 1))
+        else:
+            raise RuntimeError("git worktree add failed: " + r0.stderr[-300:])
         patch = os.path.join(VERIF, m["patch"])
         r = subprocess.run(["git", "-C", wt, "apply", patch], capture_output=True, text=True)
         if r.returncode != 0:
